@@ -258,7 +258,19 @@ def _finish_returns(t, top):
                 return ("closure", n[1], n[2], nb)
         return None
     t = rewrite(t, clo)
-    return _then_merge(_push_ctor(conv(t))) if top else t
+    return _then_merge(_push_ctor(_result_map_tail(conv(t)))) if top else t
+
+
+def _result_map_tail(t):
+    """as the result of a function:  match x { Ok(v) => Ok(f(v)), Err(e) => Err(e) }  (i.e. x.map(f))   ==   Ok(f(x?))"""
+    if t[0] == "match" and len(t[2]) == 2 and all(g is None for _p, g, _b in t[2]) and {t[2][0][0], t[2][1][0]} == {"v1::Ok($)", "v1::Err($)"}:
+        okb = next(b for p, _g, b in t[2] if p == "v1::Ok($)")
+        erb = next(b for p, _g, b in t[2] if p == "v1::Err($)")
+        okp, erp = ("proj", t[1], "v1::Ok", "0"), ("proj", t[1], "v1::Err", "0")
+        if erb == ("call", "Err", [erp]) and okb[0] == "call" and okb[1] == "Ok" and len(okb[2]) == 1:
+            tr = ("try", t[1])
+            return ("call", "Ok", [rewrite(okb[2][0], lambda n: tr if n == okp else None)])
+    return t
 
 
 _NONE = ("def", "v1::None")
@@ -1377,6 +1389,18 @@ class Norm:
                 t = ("mut", pat.get("name", "?"), t, et) if inlined_any else self._canon_mut(lid, ("mut", pat.get("name", "?"), t, et), effs, origin)
                 if t[0] == "mut":
                     t = _string_builder(t)
+                if t[0] == "mut" and t[3]:
+                    # every effect under one and the same `if c` / `if let`: the value is  if c { mut[init; effects] } else { init }
+                    gs = [tuple(e_[-1]) for e_ in t[3]]
+                    if gs[0] and all(g == gs[0] for g in gs) and len(gs[0]) == 1 and gs[0][0][1] in ("if", "arm") \
+                            and not any(x[0] == "sym" and x[1] == "<self>" for x in subterms(("tup", [g for g in gs[0]]))):
+                        g = gs[0][0]
+                        if g[1] == "if":
+                            cond = g[3] if g[2] else _not(g[3])
+                        else:
+                            cond = _let(g[3], g[2])
+                        bare = ("mut", t[1], t[2], [tuple(list(e_[:-1]) + [[]]) for e_ in t[3]])
+                        t = _mk_if(cond, bare, t[2])
         finally:
             self._busy.discard(lid)
         self._memo[mkey] = t
